@@ -100,6 +100,10 @@ pub enum Transport {
     Path,
     StdinFile,
     StdinPipe,
+    /// a pipe handed over *by path*: `... | sfs create /dev/stdin`
+    DevStdin,
+    /// a named pipe (mkfifo) handed over by path, `cat` writing the bytes into it
+    Fifo,
 }
 
 pub fn join(v: &[usize]) -> String {
@@ -179,6 +183,19 @@ pub fn run_create_bytes(ctx: &Ctx, dir: &std::path::Path, tag: &str, cs: &CallSe
         Transport::StdinPipe => {
             let argv = create_argv(cs, opts, None, &samples_file);
             (cli::sfs(ctx, &argv, Input::Pipe(bytes), dir), argv)
+        }
+        Transport::DevStdin => {
+            let argv = create_argv(cs, opts, Some("/dev/stdin"), &samples_file);
+            (cli::sfs(ctx, &argv, Input::Pipe(bytes), dir), argv)
+        }
+        Transport::Fifo => {
+            let fifo = format!("{tag}.fifo.{ext}");
+            let argv = create_argv(cs, opts, Some(&fifo), &samples_file);
+            // bash: $1 = fifo, $2 = input file, the rest = the sfs command line (no quoting issues)
+            let script = "rm -f \"$1\"; mkfifo \"$1\" || exit 97; cat \"$2\" > \"$1\" & f=\"$1\"; shift 2; \"$@\"; rc=$?; wait; rm -f \"$f\"; exit $rc";
+            let mut args: Vec<String> = vec!["-c".into(), script.into(), "fifo-transport".into(), fifo.clone(), input_name.clone(), ctx.sfs_bin.to_string_lossy().into_owned()];
+            args.extend(argv.iter().cloned());
+            (cli::run_bin(ctx, std::path::Path::new("/bin/bash"), &args, Input::Null, dir, &[]), argv)
         }
     }
 }
